@@ -917,3 +917,148 @@ pub fn c18_model(c: &mut Ctx, b: &Budget) {
         c.end();
     }
 }
+
+
+// ---------------------------------------------------------------------------------- C10 / C11 on both sides
+
+fn catch<T>(f: impl FnOnce() -> T) -> Option<T> { guarded(f).ok() }
+
+/// C10 with the model in the loop: content key, nonce and sealed messages are made here (real KEMs) and handed to both sides as
+/// explicit arguments; what every private key of the scenario does with every sealed message is stated to the model as facts.
+pub fn c10_model(c: &mut Ctx, b: &Budget) {
+    let cfg = GenCfg::default();
+    let schemes = [(0u64, EncapsulationScheme::X25519), (1, EncapsulationScheme::MLKEM512), (2, EncapsulationScheme::MLKEM768)];
+    for i in 0..(b.scenarios / 3).max(20) {
+        c.begin("recipients-model");
+        let e = gen_env(c, &cfg, 2);
+        let n = c.rng.range(1, 3);
+        // key ids 1..=n are recipients, n+1 is added later, n+2 is an outsider
+        let mut keys = vec![];
+        for kid in 1..=(n as u64 + 2) {
+            let (si, sch) = if i % 3 == 0 { schemes[0].clone() } else { c.rng.pick(&schemes).clone() };
+            let (sk, pk) = sch.keypair();
+            c.line(format!("fact kemkey {} {}", kid, hex::encode(CBOR::from(sk.clone()).to_cbor_data())));
+            c.line(format!("fact kemscheme key {} {}", kid, si));
+            c.count(&format!("scheme:{}", si));
+            keys.push((kid, si, sk, pk));
+        }
+        let ck = c.rng.bytes(32); let nonce = c.rng.bytes(12);
+        let ckobj = SymmetricKey::from_data_ref(&ck).unwrap();
+        let mut seal = |c: &mut Ctx, to: usize, payload: Vec<u8>| -> String {
+            let sm = bc_components::SealedMessage::new(payload, &keys[to].3);
+            let hx = hex::encode(sm.to_cbor_data());
+            let r = c.assign(&format!("leaf {}", hx));
+            c.line(format!("fact kemscheme sealed {} {}", hx, keys[to].1));
+            for (kid, si, sk, _) in &keys {
+                if *si != keys[to].1 { continue; }   // the library never hands a message of another scheme to a key
+                if let Some(Ok(pt)) = catch(|| sm.decrypt(sk)) { c.line(format!("fact kem {} {} {}", kid, hx, hex::encode(pt))); }
+            }
+            r
+        };
+        let mut sealed = vec![];
+        for to in 0..n { sealed.push(seal(c, to, ckobj.to_cbor_data())); }
+        if c.rng.chance(1, 4) { let d = sealed[0].clone(); sealed.push(d); c.count("branch:duplicate-recipient"); }
+        if c.rng.chance(1, 4) { // a sealed message for recipient 1 that holds something other than the content key
+            let junk = seal(c, 0, CBOR::from("not a key").to_cbor_data()); sealed.insert(0, junk); c.count("branch:sealed-junk-first"); }
+        let x = c.assign(&format!("enc_to_recipients {} {} {} {}", e, hex::encode(&ck), hex::encode(&nonce), sealed.join(",")));
+        c.obs(&format!("shape {}", x));
+        c.obs(&format!("recipients {}", x));
+        let all_kids: Vec<u64> = keys.iter().map(|k| k.0).collect();
+        let try_all = |c: &mut Ctx, env: &str, what: &str| {
+            for kid in &all_kids {
+                let d = c.assign(&format!("decrypt_subject_to_recipient {} {}", env, kid));
+                if c.is_ok(&d) { c.obs(&format!("shape {}", d)); c.count(&format!("outcome-model:{}:opens", what)); } else { c.count(&format!("outcome-model:{}:fails", what)); }
+            }
+        };
+        if c.is_ok(&x) {
+            try_all(c, &x, "listed");
+            // a recipient added later
+            let late = seal(c, n, ckobj.to_cbor_data());
+            let y = c.assign(&format!("add_recipient {} {}", x, late));
+            c.obs(&format!("shape {}", y)); c.obs(&format!("recipients {}", y));
+            try_all(c, &y, "after-add");
+            // the sealed message of one recipient elided / compressed: `recipients()` passes over obscured objects
+            let act = if c.rng.chance(1, 2) { "elide" } else { "compress" };
+            let z = c.assign(&format!("elide_set {} rem {} {}", y, act, sealed[sealed.len() - 1]));
+            c.obs(&format!("recipients {}", z));
+            try_all(c, &z, "one-sealed-obscured");
+            // a 'hasRecipient' assertion whose object is not a sealed message
+            let hr = c.assign("kv 5"); let junk = gen_leaf(c, &cfg); let a = c.assign(&format!("assertion {} {}", hr, junk));
+            let q = c.assign(&format!("add {} {}", x, a));
+            c.obs(&format!("recipients {}", q));
+            try_all(c, &q, "junk-recipient-object");
+        }
+        // not encrypted at all
+        let d0 = c.assign(&format!("decrypt_subject_to_recipient {} 1", e)); let _ = d0;
+        // the wrapped whole
+        let w = c.assign(&format!("encrypt_to_recipient {} {} {} {}", e, hex::encode(&ck), hex::encode(&nonce), sealed[sealed.len() - 1]));
+        c.obs(&format!("shape {}", w));
+        for kid in &all_kids { let d = c.assign(&format!("decrypt_to_recipient {} {}", w, kid)); if c.is_ok(&d) { c.obs(&format!("shape {}", d)); c.obs(&format!("eq {} {}", d, e)); } }
+        c.end();
+    }
+}
+
+/// C11 with the model in the loop: the shares are made here (real `sskr_generate`); the identifier of every share and the outcome of
+/// `sskr_combine` on every identifier group the join will form are stated to the model as facts.
+pub fn c11_model(c: &mut Ctx, b: &Budget) {
+    use bc_components::{sskr_combine, sskr_generate, SSKRGroupSpec, SSKRSecret, SSKRShare, SSKRSpec};
+    let cfg = GenCfg::default();
+    let policies: Vec<(usize, Vec<(usize, usize)>)> = vec![(1, vec![(1, 1)]), (1, vec![(2, 3)]), (2, vec![(1, 2), (2, 3)]), (1, vec![(2, 2), (1, 1)]), (2, vec![(2, 3), (2, 3), (1, 1)])];
+    for i in 0..(b.scenarios / 5).max(10) {
+        c.begin("sskr-model");
+        let e = gen_env(c, &cfg, 2);
+        let ck = c.rng.bytes(32); let nonce = c.rng.bytes(12);
+        let enc = c.assign(&format!("encrypt_subject {} {} {}", e, hex::encode(&ck), hex::encode(&nonce)));
+        if !c.is_ok(&enc) { c.end(); continue; }
+        let (gt, groups) = policies[i % policies.len()].clone();
+        let spec = SSKRSpec::new(gt, groups.iter().map(|(t, n)| SSKRGroupSpec::new(*t, *n).unwrap()).collect()).unwrap();
+        let secret = SSKRSecret::new(&ck).unwrap();
+        // two splits of the same content key: different identifiers (regenerated on a collision)
+        let split1 = sskr_generate(&spec, &secret).unwrap();
+        let mut split2 = sskr_generate(&spec, &secret).unwrap();
+        while split2[0][0].identifier() == split1[0][0].identifier() { split2 = sskr_generate(&spec, &secret).unwrap(); }
+        let mut share_env = |c: &mut Ctx, sh: &SSKRShare| -> (String, SSKRShare) {
+            let hx = hex::encode(sh.to_cbor_data());
+            let l = c.assign(&format!("leaf {}", hx));
+            c.line(format!("fact sskr id {} {}", hx, sh.identifier()));
+            (c.assign(&format!("add_sskr_share {} {}", enc, l)), sh.clone())
+        };
+        let flat1: Vec<(String, SSKRShare)> = split1.iter().flatten().map(|s| share_env(c, s)).collect();
+        let flat2: Vec<(String, SSKRShare)> = split2.iter().flatten().map(|s| share_env(c, s)).collect();
+        c.obs(&format!("shape {}", flat1[0].0));
+        // the presented selections
+        let mut selections: Vec<Vec<(String, SSKRShare)>> = vec![flat1.clone(), vec![flat1[0].clone()], vec![]];
+        for _ in 0..6 { let mut v = flat1.clone(); c.rng.shuffle(&mut v); let k = c.rng.range(1, v.len()); v.truncate(k); selections.push(v); }
+        { let mut v = flat1.clone(); v.push(flat1[0].clone()); selections.push(v); c.count("branch:repeated-share-envelope"); }
+        for _ in 0..3 { let mut v = flat1.clone(); v.extend(flat2.clone()); c.rng.shuffle(&mut v); let k = c.rng.range(1, v.len()); v.truncate(k); selections.push(v); c.count("branch:mixed-splits"); }
+        for sel in selections {
+            // the identifier groups the join forms, in order of first occurrence, and what the real combine says about each
+            let mut order: Vec<u16> = vec![]; let mut by: std::collections::HashMap<u16, Vec<SSKRShare>> = Default::default();
+            for (_, sh) in &sel { let id = sh.identifier(); if !by.contains_key(&id) { order.push(id); } by.entry(id).or_default().push(sh.clone()); }
+            for id in &order {
+                let g = &by[id];
+                let key = g.iter().map(|s| hex::encode(s.to_cbor_data())).collect::<Vec<_>>().join(",");
+                let out = match catch(|| sskr_combine(g)) { Some(Ok(sec)) => hex::encode(sec.as_ref() as &[u8]), _ => "none".to_string() };
+                c.line(format!("fact sskr combine {} {}", key, out));
+            }
+            let regs = if sel.is_empty() { "-".to_string() } else { sel.iter().map(|x| x.0.clone()).collect::<Vec<_>>().join(",") };
+            let j = c.assign(&format!("sskr_join {}", regs));
+            if c.is_ok(&j) { c.obs(&format!("shape {}", j)); c.count("outcome-model:join:ok"); } else { c.count("outcome-model:join:refused"); }
+        }
+        // an envelope carrying two shares; a junk 'sskrShare' object; an elided share
+        let two = { let hx = hex::encode(flat1[flat1.len() - 1].1.to_cbor_data()); let l = c.assign(&format!("leaf {}", hx)); c.assign(&format!("add_sskr_share {} {}", flat1[0].0, l)) };
+        { let g = vec![flat1[0].1.clone(), flat1[flat1.len() - 1].1.clone()];
+          let mut ordered: Vec<SSKRShare> = vec![];
+          if let Some(env) = c.env(&two) { for a in env.assertions_with_predicate(known_values::SSKR_SHARE) { if let Some(o) = a.as_object() { if let Ok(s) = o.extract_subject::<SSKRShare>() { ordered.push(s); } } } }
+          let g = if ordered.len() == 2 { ordered } else { g };
+          let key = g.iter().map(|s| hex::encode(s.to_cbor_data())).collect::<Vec<_>>().join(",");
+          let out = match catch(|| sskr_combine(&g)) { Some(Ok(sec)) => hex::encode(sec.as_ref() as &[u8]), _ => "none".to_string() };
+          c.line(format!("fact sskr combine {} {}", key, out)); }
+        let j = c.assign(&format!("sskr_join {}", two)); if c.is_ok(&j) { c.obs(&format!("shape {}", j)); }
+        let kvs = c.assign("kv 6"); let junk = gen_leaf(c, &cfg); let ja = c.assign(&format!("assertion {} {}", kvs, junk));
+        let bad = c.assign(&format!("add {} {}", enc, ja));
+        let _ = c.assign(&format!("sskr_join {}", bad));
+        let _ = c.assign(&format!("sskr_join {},{}", bad, flat1[0].0));
+        c.end();
+    }
+}
